@@ -13,6 +13,7 @@ CONSTANTS
   MaxLoss = 1
   MaxDup = 1
   MaxPopCalls = 3
+  MaxMidFlush = 0
   Algo = "abstract"
   Impl = "asis"
   Sampling = FALSE
